@@ -1,13 +1,34 @@
 from xdsl.context import Context
 from xdsl.dialects import builtin, scf
 from xdsl.dialects.memref import DeallocOp
-from xdsl.ir import Operation
+from xdsl.ir import Block, Operation
 from xdsl.passes import ModulePass
 from xdsl.rewriter import InsertPoint, Rewriter
 
 from snaxc.accelerators.acc_context import AccContext
 from snaxc.dialects import snax
 from snaxc.util.dispatching_rules import dispatch_to_compute, dispatch_to_dm
+
+
+def is_in_block(op: Operation, block: Block | None) -> bool:
+    """Check if op is in the block, or nested in an operation in the block."""
+    parent = op.parent_block()
+    while parent is not None:
+        if parent is block:
+            return True
+        parent_op = parent.parent_op()
+        parent = parent_op.parent_block() if parent_op is not None else None
+    return False
+
+
+def remove_synced_ops(ops_to_sync: list[Operation], sync_op: snax.ClusterSyncOp) -> list[Operation]:
+    """
+    Remove the ops from the list that are synchronised by the given barrier. These are only the ops
+    in the block of the barrier (or nested in it): ops outside of this block may be reached without
+    executing the barrier (loop with zero iterations, other branch of a conditional).
+    """
+    block = sync_op.parent_block()
+    return [op for op in ops_to_sync if not is_in_block(op, block)]
 
 
 class InsertSyncBarrier(ModulePass):
@@ -22,7 +43,7 @@ class InsertSyncBarrier(ModulePass):
         assert isinstance(ctx, AccContext)
         rewriter = Rewriter()
 
-        ops_to_sync = []
+        ops_to_sync: list[Operation] = []
 
         ## walk the entire module in order
         for op_in_module in op.walk():
@@ -32,12 +53,12 @@ class InsertSyncBarrier(ModulePass):
                 sync_op = snax.ClusterSyncOp()
                 rewriter.insert_op(sync_op, InsertPoint.before(op_in_module))
 
-                # clear the list
-                ops_to_sync = []
+                # remove the synchronised ops from the list
+                ops_to_sync = remove_synced_ops(ops_to_sync, sync_op)
 
             if isinstance(op_in_module, snax.ClusterSyncOp):
-                # synchronisation ok, clear list
-                ops_to_sync: list[Operation] = []
+                # synchronisation ok, remove the synchronised ops from the list
+                ops_to_sync = remove_synced_ops(ops_to_sync, op_in_module)
 
             # check all operands of current op
             for operand in [*op_in_module.operands, *op_in_module.results]:
